@@ -7,6 +7,10 @@ pub struct HashMap<K, V> { _p: core::marker::PhantomData<(K, V)> }
 impl HashMap<String, String> {
     pub uninterp spec fn view(&self) -> Map<Seq<char>, Seq<char>>;
     #[verifier::external_body]
+    pub fn new() -> (r: Self)
+        ensures r@ == Map::<Seq<char>, Seq<char>>::empty()
+    { unimplemented!() }
+    #[verifier::external_body]
     pub fn insert(&mut self, k: String, v: String) -> (r: Option<String>)
         ensures final(self)@ == old(self)@.insert(k@, v@)
     { unimplemented!() }
